@@ -1592,7 +1592,7 @@ def run(ctx):
     nshards = 14
     args = []
     if pid == "C06":
-        per = ctx.scale(110, 1500)
+        per = ctx.scale(200, 1500)
         for i in range(nshards):
             args.append((shard_c06, (ctx.seed, i, per, deadline)))
         args.append((shard_blocks_reader, (ctx.seed, 0, ctx.scale(400, 8000), deadline)))
@@ -1600,7 +1600,7 @@ def run(ctx):
         args.append((shard_bundled_c06, (ctx.seed, 0, files[0::2], deadline, ctx.tier)))
         args.append((shard_bundled_c06, (ctx.seed, 1, files[1::2], deadline, ctx.tier)))
     else:
-        per = ctx.scale(32, 500)
+        per = ctx.scale(70, 500)
         for i in range(nshards):
             args.append((shard_c04, (ctx.seed, i, per, deadline, ctx.tier)))
         files = bundled_texts(ctx.scale(45_000, 1_500_000))
